@@ -49,13 +49,16 @@ class ModelFunctionFormatterYamlWriter(YamlWriterMixin, ModelFunctionFormatterDR
 
         _arg_formatters_dict = dict()
         for _arg_formatter in model_function_formatter.arg_formatters:
-            _arg_formatters_dict[_arg_formatter.name] = _arg_formatter.latex_name
+            if _arg_formatter.name == _arg_formatter.arg_name:
+                _arg_formatters_dict[_arg_formatter.arg_name] = _arg_formatter.latex_name
+            else:  # the argument was given another name for display
+                _arg_formatters_dict[_arg_formatter.arg_name] = dict(name=_arg_formatter.name, latex_name=_arg_formatter.latex_name)
         _yaml_doc["arg_formatters"] = _arg_formatters_dict
 
         # This is needed when saving a formatter without a model function object in order to
         # know the correct order of the arguments. This is because writing and then reading a yaml
         # file in Py2 will change the order of a dict or OrderedDict. This is not necessary for Py3!
-        _yaml_doc["signature"] = [_arg_formatter.name for _arg_formatter in model_function_formatter.arg_formatters]
+        _yaml_doc["signature"] = [_arg_formatter.arg_name for _arg_formatter in model_function_formatter.arg_formatters]
         return _yaml_doc
 
 
